@@ -82,8 +82,12 @@ def gen_value(w, r, t, depth=0):
         lo = -(1 << (8 * size - 1)) if signed else 0
         hi = (1 << (8 * size - 1)) - 1 if signed else (1 << (8 * size)) - 1
         x = r.random()
-        if x < 0.3:
+        if x < 0.2:
             return r.choice([lo, hi, 0, hi - 1, lo + 1 if signed else 1])
+        if x < 0.4:
+            # every place where an encoding changes shape: sign bit / byte / width boundaries
+            pool = [v for b in (7, 8, 15, 16, 31, 32, 63) for v in ((1 << b) - 1, 1 << b, -(1 << b), -(1 << b) - 1, -(1 << b) + 1) if lo <= v <= hi] + [-1 if signed else 1]
+            return r.choice(pool)
         return r.randrange(max(lo, -50), min(hi, 50) + 1)
     if n == "bool":
         return r.random() < 0.5
@@ -125,9 +129,19 @@ def gen_value(w, r, t, depth=0):
 
 
 def gen_ref(w, r):
+    """A reference for a UUID / Offset entry. A few "hot" nodes are named again and again, so
+    that several tables (of one container, of several generations) name the SAME node - whose
+    attachment may change between the moments those tables are decoded."""
+    hot = w.__dict__.setdefault("hot_refs", [])
+    hot[:] = [l for l in hot if l in w.m.nodes]
+    if hot and r.random() < 0.45:
+        return {"node": hot[r.randrange(len(hot))]}
     labels = [l for l in w.m.nodes]
     if labels and r.random() < 0.7:
-        return {"node": labels[r.randrange(len(labels))]}
+        l = labels[r.randrange(len(labels))]
+        hot.append(l)
+        del hot[:-3]
+        return {"node": l}
     return {"uuid": r.getrandbits(128)}
 
 
